@@ -56,6 +56,14 @@ def lint_notices(root) -> list:
     return sorted(c["value"] for c in f[0]["copyrights"]) if f else []
 
 
+def _run(case: dict, args: list) -> dict:
+    """The command in-process, or - for cases marked locale_c whose command line is ASCII - in a fresh interpreter whose
+    locale is not UTF-8 (the files reuse writes are UTF-8 all the same)."""
+    if case.get("locale_c") and all(str(a).isascii() for a in args):
+        return core.run_reuse_subprocess(args, env=core.C_LOCALE_ENV)
+    return core.run_reuse(args)
+
+
 def run_case(case: dict) -> dict:
     from reuse.copyright import make_copyright_line, merge_copyright_lines
     ev = {"tid": case["tid"], "label": case["label"], "kind": case["kind"], "crash": ""}
@@ -79,7 +87,7 @@ def run_case(case: dict) -> dict:
                     args += ["--year", y]
             else:
                 args.append("--exclude-year")
-            r = core.run_reuse([*args, str(f)])
+            r = _run(case, [*args, str(f)])
             if r["exc"] or r["exit"] != 0:
                 ev["crash"] = (r["exc"] or r["out"] + r["err"])[-400:]
             back = lint_notices(root)
@@ -111,7 +119,7 @@ def run_case(case: dict) -> dict:
                     args = ["--root", str(root), "annotate", "--merge-copyrights", "--exclude-year", "--license", "MIT"]
                     for n in S:
                         args += ["--copyright", concrete(n, hmap, tight)]
-                    r = core.run_reuse([*args, str(f)])
+                    r = _run(case, [*args, str(f)])
                     if r["exc"] or r["exit"] != 0:
                         ev["crash"] = (r["exc"] or r["out"] + r["err"])[-400:]
                     ev["O"] = [parse_notice(x) for x in sorted(lint_notices(root))]
@@ -134,7 +142,7 @@ def run_case(case: dict) -> dict:
                     args += ["--year", str(new["y1"])]
                 else:
                     args += ["--year", str(new["y2"]), "--year", str(new["y1"])]
-                r = core.run_reuse([*args, str(f)])
+                r = _run(case, [*args, str(f)])
                 if r["exc"] or r["exit"] != 0:
                     ev["crash"] = (r["exc"] or r["out"] + r["err"])[-400:]
                 out = lint_notices(root)
@@ -195,6 +203,8 @@ def run(ctx: core.Ctx) -> int:
                                                "ranges": "YYYY-YYYY" if tight else "YYYY - YYYY"})})
     for i, c in enumerate(cases):
         c["tid"] = i + 1
+        c["locale_c"] = i % 8 == 3 and c["kind"] != "verbatim" and c.get("via") != "api"
+    ctx.notes["cases_in_a_C_locale_interpreter"] = sum(1 for c in cases if c["locale_c"])
     events = ctx.pmap(run_case, cases, chunksize=32)
     for ev in events[:: max(1, len(events) // 4)][:4]:
         ctx.samples.append({k: v for k, v in ev.items() if k not in ("tid",)})
